@@ -48,6 +48,15 @@ func (p stopPlan) String() string {
 		p.nstop, p.interval, p.at, p.atTick, p.nexpired, p.nlive, p.delays, p.predump, p.aim, p.chain, p.storm, p.stormN, p.racers, p.racerN, p.maxTTL)
 }
 
+// liveKey names the i-th untouched live key of the stop mode; the first one is
+// the zero-value key "".
+func liveKey(i int) string {
+	if i == 0 {
+		return ""
+	}
+	return fmt.Sprintf("l%d", i)
+}
+
 func genStop(rng *mon.RNG) stopPlan {
 	p := stopPlan{nstop: rng.Range(2, 4)}
 	p.interval = []time.Duration{grid, grid, 3 * grid}[rng.Intn(3)]
@@ -115,7 +124,7 @@ func runStop(t *testing.T, idx int, pl stopPlan) {
 			c.Set(fmt.Sprintf("e%d", i), "x", 1)
 		}
 		for i := 0; i < pl.nlive; i++ {
-			c.Set(fmt.Sprintf("l%d", i), fmt.Sprintf("live%d", i), 40)
+			c.Set(liveKey(i), fmt.Sprintf("live%d", i), 40)
 		}
 		rec.Progress()
 		sleepTo := func(at time.Duration) {
@@ -210,10 +219,13 @@ func runStop(t *testing.T, idx int, pl stopPlan) {
 					default:
 						// a live key nobody touches must hit, also in the middle of the cleaner's pass and of Stop
 						k := rr.Intn(pl.nlive)
-						if v, ok := c.Get(fmt.Sprintf("l%d", k)); !ok || v != fmt.Sprintf("live%d", k) {
-							violation("stopmode/get/miss-live-entry/untouched-key", fmt.Sprintf("racer %d: Get(l%d) -> %q,%v at %v: the entry is live (ttl 40s) and nobody touched it", r, k, v, ok, time.Since(start)))
+						if v, ok := c.Get(liveKey(k)); !ok || v != fmt.Sprintf("live%d", k) {
+							violation("stopmode/get/miss-live-entry/untouched-key", fmt.Sprintf("racer %d: Get(%q) -> %q,%v at %v: the entry is live (ttl 40s) and nobody touched it", r, liveKey(k), v, ok, time.Since(start)))
 						} else {
 							rec.Count("stopmode.untouched_live_hits", 1)
+							if k == 0 && pl.atTick {
+								rec.Count("stopmode.zero_key.hits_at_cleanup_instant", 1)
+							}
 						}
 					}
 					if rr.Chance(1, 2) {
@@ -303,11 +315,12 @@ func runStop(t *testing.T, idx int, pl stopPlan) {
 		// the cache keeps answering after Stop: live entries hit, expired ones miss, no tick any more
 		time.Sleep(2 * sec)
 		for i := 0; i < pl.nlive; i++ {
-			if v, ok := c.Get(fmt.Sprintf("l%d", i)); !ok || v != fmt.Sprintf("live%d", i) {
-				violation("stopmode/get/miss-live-entry/after-stop", fmt.Sprintf("Get(l%d) -> %q,%v after Stop; the entry is live", i, v, ok))
+			if v, ok := c.Get(liveKey(i)); !ok || v != fmt.Sprintf("live%d", i) {
+				violation("stopmode/get/miss-live-entry/after-stop", fmt.Sprintf("Get(%q) -> %q,%v after Stop; the entry is live (ttl 40s) and nobody touched it", liveKey(i), v, ok))
 				return
 			}
 		}
+		rec.Count("stopmode.zero_key.hits_after_stop", 1)
 		for _, i := range []int{0, pl.nexpired / 2, pl.nexpired - 1} {
 			if v, ok := c.Get(fmt.Sprintf("e%d", i)); ok {
 				violation("stopmode/get/hit-after-expiry/after-stop", fmt.Sprintf("Get(e%d) -> %q,true after Stop; it expired at 1s", i, v))
